@@ -24,7 +24,8 @@ FAULTS = {
 # lines that are faulty but outside the property's list (reported as observations only)
 OUTSIDE = ['sw t0', 'align', 'li', 'mv t0', 'pack <Z 1', 'align 0']
 
-VALID_BEFORE = ['blob:', 'include_bytes blob.bin', '    align 4', 'start:', '    addi x8, x8, 1', '    li t0, 0x12345', 'FOO = 7', '    call start', '    align 4', '    dw start', 'mid:']
+# defs.asm (constants only) is included several times on the way to the fault: by every level and twice by the faulty file itself
+VALID_BEFORE = ['include defs.asm', 'blob:', 'include_bytes blob.bin', '    align 4', 'include defs.asm', 'start:', '    addi x8, x8, 1', '    li t0, 0x12345', 'FOO = 7', '    call start', '    align 4', '    dw start', 'mid:']
 VALID_AFTER = ['    align 4', '    li t1, 17', '    beqz x8, start', '    string ok', 'end:', '    j mid']
 
 
@@ -43,9 +44,10 @@ def programs(tier):
                     files = {}
                     inner = 'f%d.asm' % depth
                     files[inner] = '\n'.join(body) + '\n'
+                    files['defs.asm'] = '# shared definitions\nDEFS_N = 3\nDEFS_M = DEFS_N + 1\n'
                     # wrap in includes: each level has its own lines before the include
                     for d in range(depth - 1, -1, -1):
-                        files['f%d.asm' % d] = '# level %d\nlvl%d:\n    addi x9, x9, %d\n\ninclude f%d.asm\n    addi x9, x9, 2\n' % (d, d, d, d + 1)
+                        files['f%d.asm' % d] = '# level %d\ninclude defs.asm\nlvl%d:\n    addi x9, x9, %d\n\ninclude f%d.asm\n    addi x9, x9, 2\n' % (d, d, d, d + 1)
                     yield files, 'f0.asm', inner, lineno, cls, fault, pos, depth
 
 
